@@ -230,3 +230,27 @@ def cast_chains(rng: random.Random, n: int):
             e = f"(({t}) {e})"
         progs.append((f"chain|{'|'.join(ts)}", f"{{ {ts[0]} a = ({ts[0]}) {src_for(ts[0])}; RyyV = (int64_t){e}; }}"))
     return progs
+
+
+# --------------------------------------------------------------------------- generated sub-routines
+def sub_item(name, ret, params, body):
+    """-> (compile tuple for add_sub_routine, json-shaped dict for the C oracle)"""
+    return (name, ret, list(params), body), {name: {"return_type": ret, "params": list(params), "code": body}}
+
+
+def cast_call_matrix():
+    """C03: argument passing and return as conversion contexts (generated sub-routines)."""
+    items = []
+    k = 0
+    for t1 in TYPES:
+        for t2 in TYPES:
+            k += 1
+            # argument: value of type t1 passed to a parameter of type t2
+            fn = f"argc{k}"
+            sub, cs = sub_item(fn, t2, [f"{t2} p"], "{ return p; }")
+            items.append(dict(name=f"arg|{t1}|{t2}", text=f"{{ {t1} a = ({t1}) {src_for(t1)}; {t2} b = {fn}(a); RyyV = (int64_t) b; }}", subs=[sub], c_subs=cs))
+            # return: expression of type t1 returned from a function declared to return t2
+            fn = f"retc{k}"
+            sub, cs = sub_item(fn, t2, [f"{t1} p"], "{ return p; }")
+            items.append(dict(name=f"ret|{t1}|{t2}", text=f"{{ {t1} a = ({t1}) {src_for(t1)}; {t2} b = {fn}(a); RyyV = (int64_t) b; }}", subs=[sub], c_subs=cs))
+    return items
